@@ -330,6 +330,23 @@ func c17FanOut(w *mon.W, idx int) {
 			return
 		}
 	}
+	// the same node with 0..600 keys in front of it and a few behind, so that it sits at every alignment with respect to
+	// whatever block size an implementation summarises adjacent pairs in (round 14: blocks of 256 pairs, a uint8 count)
+	if prefix != "" && tailMode == 0 {
+		for _, before := range []int{1, 63, 64, 127, 254, 255, 256, 257, 511, 512} {
+			var front []string
+			for i := 0; i < before; i++ {
+				front = append(front, fmt.Sprintf("%c%05d", prefix[0]-1, i)) // sorts before every key that starts with prefix
+			}
+			all := gen.SortedUnique(append(append(front, keys...), prefix+"\xff\xffz", string([]byte{prefix[0] + 1})))
+			for _, ms := range []int{1, 7, 255, 256, 257} {
+				if !c17Check(w, all, ms) {
+					return
+				}
+			}
+		}
+		w.Bucket("fan-out/at-every-alignment")
+	}
 	w.Sample(func() interface{} {
 		return mon.D{"prefix": fmt.Sprintf("%q", prefix), "shape": shape, "nkeys": len(keys), "what": "one node with 255..257 children"}
 	})
